@@ -162,3 +162,43 @@ Theorem C06_ntt_unchecked_any_root : forall l x omega, (l <= 32)%nat -> length x
             map bden y = dft fp_field (bden omega) (map bden x).
 Proof. exact ntt_unchecked_b_any_root. Qed.
 Print Assumptions C06_ntt_unchecked_any_root.
+
+(* ---------------------------------------------------------------- the extension field AS A FIELD
+   k3_field = Fp[X]/(X^3 - X + 1) on triples of Fp (proofs/XFieldOk.v: xfe_field_ok : field_ok xfe_ops k3_field canon3 denX;
+   canon3 / denX are okX / xden up to the shape of the definition).  With the twiddles read through the embedding
+   iota : Fp -> Fp3 (xscale by a BFieldElement = product with its lift, C01_xscale_is_mul_by_lift) the generic theorems
+   apply with fk := k3_field:  ntt on XFieldElement vectors is the DFT over the extension field at the lifted root. *)
+From TF Require Import XFieldProofs XFieldOk XFieldNtt.
+Theorem C06_xfe_hom : NttStruct.ntt_hom bfe_ops xfe_ops xb_act k3_field canon canon3 bden3 denX.
+Proof. exact xb_hom_field. Qed.
+Print Assumptions C06_xfe_hom.
+Theorem C06_okX_xden : (forall x, okX x <-> canon3 x) /\ (forall x, xden x = denX x).
+Proof. exact (conj okX_canon3 xden_denX). Qed.
+Print Assumptions C06_okX_xden.
+Theorem C06_ntt_x_field_is_dft : forall l x, (l <= 31)%nat -> length x = (2 ^ l)%nat -> Forall canon3 x ->
+  exists y omega, primitive_root_of_unity (2 ^ Z.of_nat l) = Some omega /\ ntt_x x = Some y /\
+    Forall canon3 y /\ length y = length x /\ map denX y = dft k3_field (iota (bden omega)) (map denX x).
+Proof. exact ntt_x_field_dft. Qed.
+Print Assumptions C06_ntt_x_field_is_dft.
+Theorem C06_intt_x_field_is_idft : forall l x, (l <= 31)%nat -> length x = (2 ^ l)%nat -> Forall canon3 x ->
+  exists y omega, primitive_root_of_unity (2 ^ Z.of_nat l) = Some omega /\ intt_x x = Some y /\
+    Forall canon3 y /\ length y = length x /\ map denX y = idft k3_field (iota (bden omega)) (map denX x).
+Proof. exact intt_x_field_idft. Qed.
+Print Assumptions C06_intt_x_field_is_idft.
+(* the lifted root is a primitive 2^l-th root of unity of the extension field, and 2 <> 0 there *)
+Theorem C06_xfe_roots : forall l omega, (l <= 32)%nat -> primitive_root_of_unity (2 ^ Z.of_nat l) = Some omega ->
+  half_root k3_field (iota (bden omega)) l /\ iota (bden omega) <> k0 k3_field /\ two_neq_0 k3_field.
+Proof.
+  exact (fun l omega Hl Hr =>
+    match roots_exact_order l omega Hl Hr with
+    | conj _ (conj _ (conj Hh (conj H0 _))) =>
+        conj (half_root_iota _ _ Hh) (conj (fun E => H0 (proj1 (iota_0_iff _) E)) k3_two_nz)
+    end).
+Qed.
+Print Assumptions C06_xfe_roots.
+(* BFieldElement vectors read inside the extension field (the operand of a mixed product) *)
+Theorem C06_ntt_b_in_xfe_is_dft : forall l x, (l <= 31)%nat -> length x = (2 ^ l)%nat -> Forall canon x ->
+  exists y omega, primitive_root_of_unity (2 ^ Z.of_nat l) = Some omega /\ ntt_b x = Some y /\
+    Forall canon y /\ length y = length x /\ map bden3 y = dft k3_field (iota (bden omega)) (map bden3 x).
+Proof. exact ntt_b_field3_dft. Qed.
+Print Assumptions C06_ntt_b_in_xfe_is_dft.
